@@ -1,4 +1,5 @@
 import DaskModel.Lemmas.TaskTerm
+import DaskModel.Lemmas.Pickle
 /-!
 # C08 — legacy → task-spec conversion and execution preserve the graph's meaning
 
@@ -272,5 +273,62 @@ theorem deps_vs_get_dependencies_refuted_dict :
 theorem deps_vs_get_dependencies_refuted_tuple :
     (convert [.str "a"] (.tuple [.fn 0, .tuple [.int 1, .str "a"]])).deps = [.str "a"] ∧
     legacyRefs [.str "a"] (.tuple [.fn 0, .tuple [.int 1, .str "a"]]) = [] := by decide
+
+
+/-! ### pickling: `Task.__getstate__/__setstate__`, `NestedContainer.__getstate__/__setstate__`
+
+The slot lists are regenerated from the AST on every run (`Generated/TaskSpecSlots.lean`). A node's dependencies
+(`_dependencies`) and everything its value is computed from (`func`, `args`, `kwargs`) are slots, so restoring every
+slot preserves both. -/
+
+open Dask.Pickle Dask.Generated.TaskSpecSlots in
+/-- **Pickle round trip of a `Task`**: every slot of the restored object holds the original value. -/
+theorem task_pickle_roundtrip (o o' : Attrs) (h : taskRoundtrip o = some o') :
+    ∀ s ∈ slotsTask, o'.lookup s = o.lookup s := by
+  unfold taskRoundtrip at h
+  simp only [Option.map_eq_some_iff] at h
+  obtain ⟨st, hst, rfl⟩ := h
+  exact lookup_zip_mapM o slotsTask st (by decide) hst
+
+open Dask.Pickle Dask.Generated.TaskSpecSlots in
+/-- **Pickle round trip of a `List/Tuple/Set/Dict` container**: the `constructor` kwarg that `__getstate__` drops is
+    restored from the class, every other slot is unchanged and `kwargs` has the same entries. Needs the class invariant
+    that `kwargs["constructor"]` is the class's constructor. -/
+theorem container_pickle_roundtrip (ctor : Obj) (o o' : Attrs) (kw : List (Obj × Obj))
+    (h : containerRoundtrip ctor o = some o') (hk : o.lookup "kwargs" = some (.dict kw))
+    (hc : kw.lookup (.str droppedKwarg) = some ctor) :
+    (∀ s ∈ slotsNestedContainer, s ≠ "kwargs" → o'.lookup s = o.lookup s) ∧
+    ∃ kw', o'.lookup "kwargs" = some (.dict kw') ∧ ∀ k, kw'.lookup k = kw.lookup k := by
+  unfold containerRoundtrip ncGetstate at h
+  cases hst : getstate slotsNestedContainer o with
+  | none => simp [hst] at h
+  | some st =>
+    have hz := lookup_zip_mapM o slotsNestedContainer st (by decide) hst
+    have hkw : (slotsNestedContainer.zip st).lookup "kwargs" = some (.dict kw) := by
+      rw [hz "kwargs" (by decide)]; exact hk
+    simp only [hst, hkw, Option.map_some, Option.some.injEq] at h
+    subst h
+    have h1 : (setSlot (slotsNestedContainer.zip st) "kwargs" (.dict (dictPop kw (.str droppedKwarg)))).lookup "kwargs" =
+        some (.dict (dictPop kw (.str droppedKwarg))) := by
+      rw [lookup_setSlot]; simp [hkw]
+    constructor
+    · intro s hs hne
+      unfold ncSetstate
+      rw [h1]
+      simp only [lookup_setSlot, hne, if_false]
+      exact hz s hs
+    · refine ⟨dictSet (dictPop kw (.str droppedKwarg)) (.str droppedKwarg) ctor, ?_, ?_⟩
+      · unfold ncSetstate
+        rw [h1]
+        simp only [lookup_setSlot, if_true, h1, Option.map_some]
+      · intro k
+        rw [lookup_dictSet]
+        by_cases hkc : k = .str droppedKwarg
+        · subst hkc; simp [hc]
+        · simp only [hkc, if_false, lookup_dictPop]
+
+open Dask.Pickle in
+/-- `Alias.__reduce__` = `(Alias, (key, target))`: rebuilding keeps the target, whatever its truth value -/
+theorem alias_pickle_roundtrip (key target : Obj) : aliasInit key (some (aliasInit key (some target))) = target := rfl
 
 end Dask.C08
